@@ -519,6 +519,8 @@ func applyAlt(structVal reflect.Value, f field, alt string, depth int) {
 		}
 	case fNodeIface:
 		switch {
+		case alt == "typednil":
+			v.Set(reflect.Zero(reflect.PointerTo(leafStruct)))
 		case alt == "leaf":
 			v.Set(leafNode("c"))
 		case alt == "rich":
@@ -712,6 +714,10 @@ func enumerate(k, depth int, fullPairs bool) []spec {
 			for _, a := range altsOf(f, true)[1:] {
 				out = append(out, spec{Type: t.Name(), Form: "ptr", Settings: []setting{{f.name, a}}})
 			}
+			if f.class == fNodeIface && f.exported {
+				// a nil pointer stored in the interface-typed child field: a nil branch like any other
+				out = append(out, spec{Type: t.Name(), Form: "ptr", Settings: []setting{{f.name, "typednil"}}})
+			}
 			if f.class == fNodeSlice && f.exported {
 				out = append(out, spec{Type: t.Name(), Form: "ptr", Settings: []setting{{f.name, "nilelem"}}})
 				out = append(out, spec{Type: t.Name(), Form: "ptr", Settings: []setting{{f.name, "onethennil"}}})
@@ -769,13 +775,14 @@ func enumerate(k, depth int, fullPairs bool) []spec {
 	return out
 }
 
-// malformed says whether the spec deliberately contains a nil branch (nil root or nil slice element).
+// malformed says whether the spec deliberately contains a nil branch (nil root, nil slice element, or a nil pointer in
+// an interface-typed child field).
 func (s spec) malformed() bool {
 	if s.Form == "nilroot" {
 		return true
 	}
 	for _, x := range s.Settings {
-		if x.Alt == "nilelem" || x.Alt == "onethennil" {
+		if x.Alt == "nilelem" || x.Alt == "onethennil" || x.Alt == "typednil" {
 			return true
 		}
 	}
